@@ -42,6 +42,7 @@ import Reamber.Lemmas.PipelineConv
 import Reamber.Lemmas.PipelineOsuQua
 import Reamber.Lemmas.PipelineQuaOsu
 import Reamber.Lemmas.PipelineGeneric
+import Reamber.Lemmas.PipelineSMRead
 import Reamber.Props.C07
 import Reamber.Props.C03
 import Reamber.Props.C01
@@ -807,11 +808,6 @@ theorem osu_to_sm_objects_partial (s : Osu.Skeleton) (hwf : s.WF) (lines : List 
 
 /-! ## … → StepMania, file to file with the tempo timeline and `#OFFSET` (exact regime) -/
 
-theorem zip_map_fst_snd {α β} (l : List (α × β)) : (l.map (·.1)).zip (l.map (·.2)) = l := by
-  induction l with
-  | nil => rfl
-  | cons a t ih => simp [ih]
-
 theorem tmTail_bpms' (T : Rat) (cur : BcSnap) (rest : List BcSnap) : (tmTail T cur rest).map (·.bpm) = rest.map (·.bpm) := by
   induction rest generalizing T cur with
   | nil => rfl
@@ -1074,5 +1070,146 @@ theorem from_abstract_to_sm_partial : ∀ c ∈ Generated.converters, c.shiftPar
   have := convert_write_sm_partial c hc hns _ k out hsrc hconv _ hmem (by simpa [ofSrcMap_embA] using hcols)
     sh t0 cs h ty desc diff dv groove w H
   simpa [ofSrcMap_embA] using this
+
+/-! ## StepMania → osu / Quaver: note data to written file (reader C02, converter C08, writer C01 / C06) -/
+
+def smToOsu : Convert.Conv := Convert.conv! "SMToOsu.convert"
+def smToQua : Convert.Conv := Convert.conv! "SMToQua.convert"
+
+theorem sm_entries : smToOsu ∈ Generated.converters ∧ smToOsu.name = "SMToOsu.convert" ∧ smToOsu.shiftParam = none ∧
+    smToQua ∈ Generated.converters ∧ smToQua.name = "SMToQua.convert" ∧ smToQua.shiftParam = none := by
+  decide +kernel
+
+/-- at millisecond resolution the statement does not look at the source chart except through its rows: a source with
+the same hits and holds (as multisets) and the same tempo rows is carried by the same target -/
+theorem closeTo_ms_of_perm (a a' tgt : AChart) (hh : a.hits.Perm a'.hits) (hl : a.holds.Perm a'.holds)
+    (hb : a.bpms = a'.bpms) (h : CloseTo 0 .ms false 0 a tgt) : CloseTo 0 .ms false 0 a' tgt := by
+  obtain ⟨h1, h2, h3⟩ := h
+  refine ⟨paired_of_perm_left _ _ _ _ hh h1, paired_of_perm_left _ _ _ _ hl h2, ?_⟩
+  rw [← hb]
+  exact h3
+
+/-- the domain of C02's chart-level reader theorems for one `#NOTES` value with the file's `#OFFSET` / `#BPMS`: C10's
+hypotheses on the tempo-change list `cs` from `t0`, every change on a measure line (`hline`: mid-measure changes are
+re-seated by the reader, C11 — the in-memory tempo values then differ from the file's by design), the header values
+`offsetSec`, `b` (pairs in beat order) denoting `t0` and `cs`; the reader's splitter and the specification's scanner see
+the same measures `ms` (C02 `measuresOf_eq_scanRows` proves it for writer-shaped data; open finding D32 is where they
+differ), rows a multiple of 4 per measure, rows no longer than `MAX_KEYS`, well-bracketed columns. -/
+structure SMChartDom (data : SM.Str) (t0 : Rat) (cs : List BcSnap) (offsetSec : Rat) (b : List (Rat × Rat))
+    (ms : List (List SM.Str)) : Prop where
+  hwf : wfChanges cs = true
+  hs : sortedSnaps cs = true
+  h0 : firstAtZero cs = true
+  hgc : gridCompatible (grid defaultMaxDiv) cs = true
+  hm : metronomeOk cs = true
+  hline : ∀ c ∈ cs, c.snap.beat = 0
+  ho : -(1000 * offsetSec) = t0
+  hb : SM.changesOf b = cs
+  hsorted : b.Pairwise (fun x y => decide (x.1 ≤ y.1) = true)
+  hms : SM.measuresOf data = ms
+  hsc : SM.scanRows data = ms
+  h4 : ∀ rows ∈ ms, 4 ∣ rows.length
+  hcol : ∀ e ∈ SM.eventsOf ms, e.col < SM.maxKeys
+  hok : (SM.pairAll (SM.events ms)).ok = true
+  hclosed : (SM.pairAll (SM.events ms)).opened = []
+
+/-- non-vacuity: the sample note data of `Lemmas/PipelineSMRead.lean` (four taps and a hold over two measures) at
+`#OFFSET:-0.5`, `#BPMS:0=120` -/
+example : SMChartDom sampleData 500 [⟨120, 4, ⟨0, 0, some 4⟩⟩] (-1 / 2) [(0, 120)] (SM.measuresOf sampleData) := by
+  refine ⟨by decide +kernel, by decide +kernel, by decide +kernel, by decide +kernel, by decide +kernel, by decide +kernel,
+    by decide +kernel, by decide +kernel, by decide +kernel, rfl, by decide +kernel, by decide +kernel, by decide +kernel,
+    by decide +kernel, by decide +kernel⟩
+
+/-- **StepMania → osu, end to end** (`_partial`; one `#NOTES` value with the file's `#OFFSET` / `#BPMS` to the written
+.osu text; reader C02 `sm_times` + `reader_notes_eq_spec` + `tempo_list_keeps_times_partial` assembled in
+`sm_read_abstract`, converter C08, writer C01): inside `SMChartDom`, whenever `SMMap._read_notes` (any permutation
+`np.argsort` may return) gives the tempo list `rb` and the notes `notes`, then
+1. reader = denotation: the in-memory chart's hits and holds are — as multisets — those of the by-the-book denotation of
+   the `#NOTES` value (`denoteChart ps`, times by integrating the `#BPMS` segments from `−1000·#OFFSET`), and its tempo
+   list is the denotation's `(time, bpm)` list;
+2. whenever the converter model's `SMToOsu.convert` succeeds on the set holding that chart's rows, every converted chart
+   `t` whose osu chart is `OsuWritable` is written to a text with a by-the-book denotation `c'` and
+   `CloseTo 0 ms false 0 (ofSMChart #OFFSET #BPMS (denoteChart ps)) (ofOsu c')`: hits and holds of the SOURCE's denotation
+   within 1 ms of the WRITTEN FILE's, tempo timelines equal.
+`_partial` because (1) the file-level lexing (the `;` / `:` tokeniser of `SMMapSet.read` — C02 `read_charts_each`,
+`chart_own_header` — against the MSD scanner of `SM.denote`) is not composed: the statement starts at the `#NOTES` value and
+the parsed header values; (2) tempo changes on measure lines only.  Glue by definition: `srcOfAbstract` / `embA` (the
+in-memory `SMMap` as the list frames of its hit, hold and tempo rows — mines, rolls, lifts, fakes, key sounds are not
+read by any converter: C08), `osuOfT`. -/
+theorem sm_to_osu_end_to_end_partial (σf : List Snap → List Nat) (hσ : ∀ qs, SortsAsc (σf qs) qs)
+    (data : SM.Str) (t0 : Rat) (cs : List BcSnap) (offsetSec : Rat) (b : List (Rat × Rat)) (ms : List (List SM.Str))
+    (D : SMChartDom data t0 cs offsetSec b ms) (ss : Bool) (rb : List (Rat × Rat)) (notes : List SM.Note)
+    (h : SM.readNotesWith σf data (some t0) (some cs) ss = .ok (rb, notes))
+    (ps : List SM.Str) (hps : ps.getD 5 [] = data)
+    (svs : Option (List (Rat × Rat))) (setAttrs mapAttrs : List (String × String)) (lv : String) (k : Int)
+    (out : Convert.Out)
+    (hconv : Convert.convert Convert.tables smToOsu (srcOfAbstract [ofSMRead rb notes] svs setAttrs mapAttrs lv) k = .ok out) :
+    ((ofSMRead rb notes).hits.Perm (ofSMChart offsetSec b (SM.denoteChart ps)).hits ∧
+     (ofSMRead rb notes).holds.Perm (ofSMChart offsetSec b (SM.denoteChart ps)).holds ∧
+     (ofSMRead rb notes).bpms = (ofSMChart offsetSec b (SM.denoteChart ps)).bpms) ∧
+    ∀ p ∈ [ofSMRead rb notes].zip out.pairs, ∀ (R : Osu.Render) (md : Osu.Meta) (osvs : List Osu.Sv),
+      OsuWritable R (osuOfT p.2.2 md osvs) →
+      ∃ c', Osu.denoteText (Osu.writeText R (osuOfT p.2.2 md osvs)) = .ok c' ∧
+        CloseTo 0 .ms false 0 (ofSMChart offsetSec b (SM.denoteChart ps)) (ofOsu c') := by
+  have hr := sm_read_abstract σf hσ data t0 cs ss D.hwf D.hs D.h0 D.hgc D.hm D.hline offsetSec b D.ho D.hb D.hsorted ms
+    D.hms D.hsc D.h4 D.hcol D.hok D.hclosed rb notes h ps hps
+  refine ⟨hr, ?_⟩
+  intro p hp R md osvs hw
+  obtain ⟨hc, _, hns, _, _, _⟩ := sm_entries
+  obtain ⟨c', hc', hclose⟩ := from_abstract_to_osu_partial _ hc hns _ svs setAttrs mapAttrs lv k out hconv p hp R md osvs hw
+  have hp1 : p.1 = ofSMRead rb notes := by
+    have := (List.of_mem_zip hp).1
+    simpa using this
+  rw [hp1] at hclose
+  exact ⟨c', hc', closeTo_ms_of_perm _ _ _ hr.1 hr.2.1 hr.2.2 hclose⟩
+
+/-- **StepMania → Quaver, end to end** (`_partial` as `sm_to_osu_end_to_end_partial`; writer C06; additionally the tempo
+points of the source lie on whole milliseconds, the metadata record is `MetaOk`, the writer model accepts) -/
+theorem sm_to_qua_end_to_end_partial (σf : List Snap → List Nat) (hσ : ∀ qs, SortsAsc (σf qs) qs)
+    (data : SM.Str) (t0 : Rat) (cs : List BcSnap) (offsetSec : Rat) (b : List (Rat × Rat)) (ms : List (List SM.Str))
+    (D : SMChartDom data t0 cs offsetSec b ms) (ss : Bool) (rb : List (Rat × Rat)) (notes : List SM.Note)
+    (h : SM.readNotesWith σf data (some t0) (some cs) ss = .ok (rb, notes))
+    (ps : List SM.Str) (hps : ps.getD 5 [] = data)
+    (svs : Option (List (Rat × Rat))) (setAttrs mapAttrs : List (String × String)) (lv : String) (k : Int)
+    (out : Convert.Out)
+    (hconv : Convert.convert Convert.tables smToQua (srcOfAbstract [ofSMRead rb notes] svs setAttrs mapAttrs lv) k = .ok out) :
+    ((ofSMRead rb notes).hits.Perm (ofSMChart offsetSec b (SM.denoteChart ps)).hits ∧
+     (ofSMRead rb notes).holds.Perm (ofSMChart offsetSec b (SM.denoteChart ps)).holds ∧
+     (ofSMRead rb notes).bpms = (ofSMChart offsetSec b (SM.denoteChart ps)).bpms) ∧
+    ∀ p ∈ [ofSMRead rb notes].zip out.pairs, ∀ (info : Qua.Rec) (qsvs : List Qua.Sv) (d : Qua.Doc),
+      Qua.MetaOk info → TempoWholeMs (ofSMChart offsetSec b (SM.denoteChart ps)) →
+      Qua.write (quaOfT p.2.2 info qsvs) = .ok d →
+      ∃ c', Qua.Spec.denote d = .ok c' ∧
+        CloseTo 0 .ms false 0 (ofSMChart offsetSec b (SM.denoteChart ps)) (ofQua c') := by
+  have hr := sm_read_abstract σf hσ data t0 cs ss D.hwf D.hs D.h0 D.hgc D.hm D.hline offsetSec b D.ho D.hb D.hsorted ms
+    D.hms D.hsc D.h4 D.hcol D.hok D.hclosed rb notes h ps hps
+  refine ⟨hr, ?_⟩
+  intro p hp info qsvs d hm hms hw
+  obtain ⟨_, _, _, hc, _, hns⟩ := sm_entries
+  have hp1 : p.1 = ofSMRead rb notes := by
+    have := (List.of_mem_zip hp).1
+    simpa using this
+  have hms' : TempoWholeMs p.1 := by
+    rw [hp1]
+    intro x hx
+    exact hms x (hr.2.2 ▸ hx)
+  obtain ⟨c', hc', hclose⟩ := from_abstract_to_qua_partial _ hc hns _ svs setAttrs mapAttrs lv k out hconv p hp info qsvs d
+    hm hms' hw
+  rw [hp1] at hclose
+  exact ⟨c', hc', closeTo_ms_of_perm _ _ _ hr.1 hr.2.1 hr.2.2 hclose⟩
+
+/-- non-vacuity of the converter hypothesis: on the frames of the sample chart both converter models succeed and return
+one chart holding the chart's rows -/
+example :
+    let a : AChart := ⟨[(500, 0), (1000, 1), (1500, 2), (2000, 3)], [(2500, 0, 1000)], [(500, 120)]⟩
+    let sa : List (String × String) := [("background", "b"), ("title", "t"), ("title_translit", "t"), ("artist", "a"),
+      ("artist_translit", "a"), ("music", "m"), ("credit", "c"), ("sample_start", "0")]
+    let ma : List (String × String) := [("difficulty", "Hard"), ("chart_type", "dance-single"), ("difficulty_val", "1")]
+    (match Convert.convert Convert.tables smToOsu (srcOfAbstract [a] none sa ma "<d>") 0 with
+     | .ok out => out.charts.map ofTChart == [a]
+     | .error _ => false) = true ∧
+    (match Convert.convert Convert.tables smToQua (srcOfAbstract [a] none sa ma "<d>") 0 with
+     | .ok out => out.charts.map ofTChart == [a]
+     | .error _ => false) = true := by decide +kernel
 
 end Reamber.Pipeline
